@@ -122,7 +122,24 @@ func c04arity(args []string) {
 			default:
 				res = "error"
 			}
-			out.Emit(h.V{"fn": fi.Pkg.Name + ":" + fi.Name, "ll": ll, "n": n, "out": res, "kind": string(fi.Kind)})
+			out.Emit(h.V{"fn": fi.Pkg.Name + ":" + fi.Name, "ll": ll, "n": n, "out": res, "kind": string(fi.Kind), "via": "form"})
+			// the same call the way funcall / apply / mapcar make it: the function object is created without the arguments of
+			// a form and is handed the arguments when it is called
+			as2 := c04Args(fi, n, req+opt)
+			o2 := h.Try(func() slip.Object {
+				return fi.Create(nil).(slip.Funky).Caller().Call(slip.NewScope(), as2, 0)
+			})
+			res2 := "value"
+			switch {
+			case o2.OK():
+			case o2.Fault():
+				res2 = "fault"
+			case strings.Contains(o2.Msg, "Too few arguments") || strings.Contains(o2.Msg, "Too many arguments"):
+				res2 = "argcount"
+			default:
+				res2 = "error"
+			}
+			out.Emit(h.V{"fn": fi.Pkg.Name + ":" + fi.Name, "ll": ll, "n": n, "out": res2, "kind": string(fi.Kind), "via": "funcall"})
 		}
 		current = ""
 	}
